@@ -429,6 +429,9 @@ def render_expr(w, e, ind):
         w.w("(")
         render_expr(w, e["e"], ind)
         w.w(")")
+    elif k == "watch":
+        # transparent marker (C27): the wrapped node is printed as it is
+        render_expr(w, e["e"], ind)
     elif k == "bin":
         render_expr(w, e["l"], ind)
         w.w(" " + e["op"] + " ")
